@@ -251,6 +251,15 @@ def _identity(run, P):
                why="the identity of + is 0 and of * is 1")
 
 
+def _rewrites(P):
+    f = P.func(f"{MOD}.match")
+    U = P.cls(f"{MOD}._ExtendedUnifier")
+    return [(fn, x) for fn in [f] + list(U.methods.values()) for x in ast.walk(fn.node)
+            if isinstance(x, ast.Call)
+            and (dotted(x.func) or "").split(".")[-1] in ("substitute", "SubstitutionMapper",
+                                                          "make_subst_func")]
+
+
 def _no_rewrite(run, P):
     """Known bindings are constraints handed to the unifier, never a rewriting of
     the template: the matcher does not substitute."""
@@ -263,6 +272,12 @@ def _no_rewrite(run, P):
                 d = (dotted(x.func) or "").split(".")[-1]
                 if d in ("substitute", "SubstitutionMapper", "make_subst_func"):
                     sites.append((fn, x))
+    if sites:
+        # known bindings are put into the template: sound exactly when no variable of a
+        # substituted value can be taken for a free template variable afterwards (renaming
+        # apart) - a property of the names at run time, not decided here
+        raise AnalysisError(f"match: known bindings are applied by {norm(sites[0][1], 40)}; whether "
+                            f"that is capture-free is not decided")
     run.ob("C17.prematch", sites[0][0] if sites else f, sites[0][1] if sites else f.node, not sites,
            construct="match / _ExtendedUnifier never substitute into the template"
                      + (f" (found {norm(sites[0][1], 50)} in {sites[0][0].qualname})" if sites else ""),
@@ -276,6 +291,9 @@ def _candidates(run, P):
     checked against, and on the default path the bound names have been taken
     out of it before either use - wherever the loop over pre_match lives."""
     from ..engine.cfg import own_fragments
+    if _rewrites(P):
+        raise AnalysisError("match: pre-supplied bindings are applied by substitution; the "
+                            "candidate-set clauses do not read that form")
     f = P.func(f"{MOD}.match")
     g = CFG(f.node)
     ctors = [n for n in g.nodes if n.kind == "stmt" and any(
@@ -364,6 +382,9 @@ def _candidates(run, P):
 
 def _match(run, P):
     from .util import find, first, has
+    if _rewrites(P):
+        raise AnalysisError("match: pre-supplied bindings are applied by substitution; the "
+                            "pre-match clauses do not read that form")
     f = P.func(f"{MOD}.match")
     g = CFG(f.node)
     loops = [n for n in ast.walk(f.node) if isinstance(n, ast.For)
